@@ -439,6 +439,33 @@ def _two_wrapping_orfs_case(rng):
             "ovl": rng.choice([0, 3]), "sampled": True}
 
 
+def _spliced_gene_before_area_case(rng):
+    """ a line with one gene in two exons and a long intron (the gene spans far more of the record than it has bases),
+        searched in an area that starts inside the second exon; an ORF is planted inside that exon """
+    length = rng.choice([45, 51, 60])
+    second = rng.randrange(length - 20, length - 15)
+    strand = rng.choice([1, -1])
+    parts = [[0, rng.choice([3, 6])], [second, length]]
+    gene = {"parts": parts[::-1] if strand == -1 else parts, "strand": strand}
+    area_start = second + rng.randrange(1, 4)
+    background = [rng.choice("CG") for _ in range(length)]
+    orf = "ATG" + rng.choice(["AAA", "CCC", "GCA"]) + rng.choice(["TAA", "TGA", "TAG"])
+    at = rng.randrange(area_start + 1, length - len(orf))
+    for offset, base in enumerate(orf):
+        background[at + offset] = base
+    rec = codes("".join(background))
+    if rng.random() < 0.5:
+        # the same on the other strand: mirror record, gene and area
+        rec = revcomp(rec)
+        mirrored = [[length - e, length - s] for s, e in parts][::-1]
+        gene = {"parts": mirrored[::-1] if -strand == -1 else mirrored, "strand": -strand}
+        area = {"parts": [[0, length - area_start]], "strand": 1}
+    else:
+        area = {"parts": [[area_start, length]], "strand": 1}
+    return {"op": "all", "rec": rec, "circ": False, "genes": [gene], "area": area, "min": rng.choice([6, 9]),
+            "ovl": rng.choice([0, 3]), "sampled": True}
+
+
 def _gaps_cases(rng, quick):
     cases = []
     length = 8
@@ -584,6 +611,8 @@ def run(ctx):
         cases.append(_random_all_case(rng, spliced_crossing=True))
     for _ in range(150 if ctx.quick else 3000):
         cases.append(_two_wrapping_orfs_case(rng))
+    for _ in range(150 if ctx.quick else 3000):
+        cases.append(_spliced_gene_before_area_case(rng))
     for idx, case in enumerate(cases):
         case["id"] = idx
     cases_by_id = {case["id"]: case for case in cases}
